@@ -364,6 +364,10 @@ type FeedReader struct {
 	Token  uint64
 	Idx    int // index into the model feed the next page must start at
 	Pages  int
+	// TokenIsIndex: the hub was never restarted, so sequence numbers have no gaps and a token is the index of
+	// the next feed entry. Pages read while writers commit are judged against several serial states; where
+	// identical versions make more than one of them fit, the token tells which one the hub read
+	TokenIsIndex bool
 }
 
 // ReadPage reads one page and checks it against the model.
@@ -429,6 +433,9 @@ func (r *FeedReader) Verify(d *DSModel, got []string, nextToken uint64, limit in
 	}
 	if nextToken < r.Token {
 		return viol("C02", "reader", kind+":token-regressed", "reader on %s: token went from %d to %d", r.DS, r.Token, nextToken)
+	}
+	if r.TokenIsIndex && nextToken != uint64(idx) && !(len(got) == 0 && nextToken == r.Token) {
+		return viol("C02", "reader", kind+":token-off", "reader on %s (%s) token %d limit %d: the page ends at feed index %d, the token returned is %d", r.DS, kind, r.Token, limit, idx, nextToken)
 	}
 	r.Token = nextToken
 	r.Idx = idx
